@@ -137,6 +137,8 @@ class Repo:
                     if setter:
                         continue
                     ci.methods[b.name] = FuncInfo(b.name, b, mi, ci, kind)
+                    if any(_deco_name(d) == "cached_property" for d in b.decorator_list):
+                        ci.methods[b.name].cached = True          # computed once per object, then an instance attribute (as in CPython)
                 elif isinstance(b, ast.Assign) and len(b.targets) == 1 and isinstance(b.targets[0], ast.Name):
                     ci.class_attrs[b.targets[0].id] = b.value
                 elif isinstance(b, ast.AnnAssign) and isinstance(b.target, ast.Name) and b.value is not None:
